@@ -214,6 +214,14 @@ class NumpyBackendProvider(BackendProvider):
             if arr.dtype.kind not in ['O', 'i', 'f']:
                 raise ValueError
         except (NumpyVisibleDeprecationWarning, ValueError):
+            ranks = {x.ndim for x in a if isinstance(x, np.ndarray)} if isinstance(a, (list, tuple)) else set()
+            if len(ranks) > 1:
+                # members of different depth, e.g. [1] next to [[1]]: numpy would line their leading axes up
+                # into one 2-D object array and drop a level of the deeper member; keep the members as they are
+                arr = self._np.empty(len(a), dtype=object)
+                for i, x in enumerate(a):
+                    arr[i] = x
+                return arr
             try:
                 arr = self._np.asarray(a, dtype=object)
             except ValueError:
